@@ -81,13 +81,14 @@ fn main() {
 
     // ---------------------------------------------------------------- tier
     let only = ctx.opt("circuit").map(|s| s.to_string());
-    let selected: Vec<&Spec> = specs
-        .iter()
-        .filter(|s| match &only {
-            Some(o) => s.name == o,
-            None => !ctx.quick() || QUICK.contains(&s.name),
-        })
-        .collect();
+    let selected: Vec<&Spec> = match &only {
+        Some(o) => specs.iter().filter(|s| s.name == o).collect(),
+        None if ctx.quick() => QUICK
+            .iter()
+            .filter_map(|q| specs.iter().find(|s| s.name == *q))
+            .collect(),
+        None => specs.iter().collect(),
+    };
     if selected.is_empty() {
         vpcore::machinery_error("no circuit selected");
     }
